@@ -9,6 +9,9 @@ import (
 // CompareRes checks an implementation result against the model's expectation.
 // It returns (oracle id, detail); oracle id "" means agreement.
 func CompareRes(op Op, got Res, exp ExpRes) (string, string) {
+	if got.Contract != "" {
+		return "io-contract:" + op.K, got.Contract
+	}
 	if exp.Class == "any" || exp.Class == "nohandle" || got.Class == "nohandle" {
 		return "", ""
 	}
